@@ -479,6 +479,9 @@ func newHistRunner(r *chk.Run, prop string, check func(HistInput) (string, int, 
 					// well-formed history served completely by the master, e.g. a
 					// decode loop that never ends. Stop at once: stuck goroutines
 					// may keep allocating.
+					if !r.StallReproduces("history", in) {
+						continue
+					}
 					hr.hung.Add(1)
 					r.Report(chk.Violation{Key: "no-progress", What: fmt.Sprintf("units=%v cfg=%s start=%s:%d: Stream did not return within 60 s although the master served the complete history and an EOF packet", in.Units, CfgName(in.Cfg), in.StartFile, in.StartPos), Kind: "history", Replay: in})
 					r.SetExhaustive(false)
